@@ -3,7 +3,7 @@
 budget=${2:-25}
 for item in $1; do
   prop=${item%%:*}; m=${item##*:}
-  python3 /verif/tools/mutcheck.py /tmp/mut/out-$prop/$m $prop --budget $budget --keep $prop-$m 2>&1 | python3 -c "
+  python3 /verif/tools/mutcheck.py ${MUTROOT:-/tmp/mut}/out-$prop/$m $prop --budget $budget --keep $prop-${KEEPTAG:-}$m 2>&1 | python3 -c "
 import json,sys
 try:
     o=json.load(sys.stdin)
